@@ -85,14 +85,20 @@ def c02(res, tier, deadline):
                                   "forked child.")
     res.assumptions = COMMON_ASSUMPTIONS + [
         "for virtual_ptr parameters the reported id is not compared (the library reports the id of the virtual_ptr specialisation; 'dynamic type of the argument' is ambiguous there)"]
-    n = "1-4" if tier == "quick" else "1-5"
+    n = "1-5" if tier == "quick" else "1-5"
     runs = []
+    sp = ("n=%s,k=2,d=3,shapes=RR;n=1-5,k=1,d=3,shapes=R;n=1-3,k=2,d=2,shapes=allRN;"
+          "n=1-4,k=1,d=2,shapes=allRN;"
+          "n=1-3,k=3,d=2,shapes=allRN;n=1-2,k=4,d=1,shapes=allRN;"
+          "n=1-3,k=2,d=2,shapes=PP|SR|RC;n=1-3,k=1,d=2,shapes=P|S|C|NP" % n)
+    if tier != "quick":
+        sp += ";n=6,k=1,d=3,shapes=R;n=1-4,k=3,d=2,shapes=RRR|RNRNR;n=1-3,k=4,d=2,shapes=RRRR"
     for tag in ("rel", "dbg", "thr", "map"):
-        runs.append(Run(tag, "dispatch",
-                        "n=%s,k=2,d=3,shapes=RR;n=1-3,k=2,d=2,shapes=allRN;n=1-4,k=1,d=2,shapes=allRN;"
-                        "n=1-3,k=3,d=2,shapes=allRN;n=1-2,k=4,d=1,shapes=allRN;"
-                        "n=1-3,k=2,d=2,shapes=PP|SR|RC;n=1-3,k=1,d=2,shapes=P|S|C|NP" % n,
-                        "C02", dump_mod=997))
+        runs.append(Run(tag, "dispatch", sp, "C02", dump_mod=997))
+    # the deprecated facet: default error handler in place, throwing call_error
+    for tag in ("rel", "dbg"):
+        runs.append(Run(tag, "dispatch", sp, "C02", extra="handler=call_error_throw",
+                        label="%s/plain/dispatch-deprecated" % tag))
     runs.append(Run("rel", "abort", "n=1-2,k=1,d=2,shapes=allRN;n=1-2,k=2,d=2,shapes=allRN;"
                     "n=1-2,k=3,d=2,shapes=allRN;n=1,k=4,d=2,shapes=allRN", "C02", shards=4,
                     label="rel/plain/abort"))
@@ -177,12 +183,21 @@ def c08(res, tier, deadline):
     res.assumptions = COMMON_ASSUMPTIONS
     if tier == "quick":
         runs = [Run("rel", "pres", "n=1-3,d=2,mode=UB;n=4,d=1,mode=UB,dup=0,rot=0"),
-                Run("rel", "pres", "n=1-4,d=0,mode=none,orders=1", label="rel/plain/pres-lattice")]
+                Run("rel", "pres", "n=1-4,d=0,mode=none,orders=1", label="rel/plain/pres-lattice"),
+                Run("rel", "pres", "n=1-5,d=1,mode=UU,subsets=0,self=1,dup=0,split=0,rot=0,orders=1;"
+                    "n=1-5,d=0,mode=UB,subsets=0,self=0,dup=0,split=0,rot=0,orders=1;"
+                    "n=6,d=1,mode=UU,subsets=0,self=0,dup=0,split=0,rot=0,orders=0",
+                    label="rel/plain/pres-direct-orders")]
     else:
         runs = [Run("rel", "pres", "n=1-4,d=2,mode=UB;n=5,d=1,mode=UB,dup=0,split=0,rot=0,self=0"),
                 Run("rel", "pres", "n=1-4,d=0,mode=none,orders=1;n=5,d=0,mode=none,dup=0,rot=0",
                     label="rel/plain/pres-lattice"),
-                Run("dbg", "pres", "n=1-4,d=1,mode=UB,dup=0,rot=0")]
+                Run("dbg", "pres", "n=1-4,d=1,mode=UB,dup=0,rot=0"),
+                Run("rel", "pres", "n=1-5,d=1,mode=UU,subsets=1,self=1,dup=0,split=0,rot=0,orders=1;"
+                    "n=1-5,d=1,mode=UB,subsets=0,self=0,dup=0,split=0,rot=0,orders=1;"
+                    "n=6,d=1,mode=UU,subsets=0,self=0,dup=0,split=0,rot=0,orders=0;"
+                    "n=6,d=0,mode=UB,subsets=0,self=0,dup=0,split=0,rot=0,orders=0",
+                    label="rel/plain/pres-direct-orders")]
     e1.execute(res, runs, deadline_total=deadline, second_oracle=False)
 
 
@@ -279,6 +294,15 @@ def replay(prop, path):
             for e in res.harness_errors:
                 print(e, file=sys.stderr)
             return 2
+        if cand.get("replay_kind") == "prefix":
+            again = e1.prefix_replay_once(cand)
+            print("replayed shard prefix up to case %s of %s [%s]: %s" % (
+                cand.get("index"), cand.get("shard"), cand.get("kind"), cand.get("case")))
+            if again:
+                print("VIOLATION property=%s replay=%s" % (prop, path))
+                return 1
+            print("not reproduced: property holds on this history")
+            return 0
         rc, so, se = e1.replay_once(cand)
         sys.stdout.write(so)
         sys.stderr.write(se[-3000:])
